@@ -137,18 +137,24 @@ def cellpdf(prog, rep):
                     okc, why = False, f"the conditional matrix must be (len(conditioning grid), len(own grid)); found {show(base)[:140]}"
     rep.check(okc, "C02.cellpdf", f"{q}:conditional", fn.where(), "fbar[i, :] = cdf(c + dx/2, given=g_i) - cdf(c - dx/2, given=g_i), g_i = coords[conditional_on[d]][i]", "dependent variable: " + why)
     # output shape
-    stores = {}
+    stores = []
     for st in cfg.all_stmts():
         if isinstance(st, ast.Assign) and isinstance(st.targets[0], ast.Subscript):
             base = b.term(st.targets[0].value, st)
             if shape_t is not None and base == shape_t:
                 k = b.term(st.targets[0].slice, st)
-                stores.setdefault(("u" if ("isnone", cond) in pcs.of(st) else "c"), []).append((k, b.term(st.value, st)))
+                br = "u" if ("isnone", cond) in pcs.of(st) else "c" if ("not", ("isnone", cond)) in pcs.of(st) else "both"
+                stores.append((br, k, b.term(st.value, st)))
     L = lambda x: ("call", G("len"), (x,), ())
+    own = [s_ for s_ in stores if s_[1] == d]
+    cnd = [s_ for s_ in stores if s_[1] == cond]
+    other = [s_ for s_ in stores if s_ not in own and s_ not in cnd]
+    own_cover = {s_[0] for s_ in own}
     ok_shape = shape_t is not None and shape_t[0] == "call" and shape_t[1] == G("numpy.ones") and shape_t[2][:1] == (L(coords),) \
-        and stores.get("u") == [(d, L(cd))] and sorted(stores.get("c", []), key=repr) == sorted([(d, L(cd)), (cond, L(ccond))], key=repr)
+        and all(s_[2] == L(cd) for s_ in own) and ("both" in own_cover or {"u", "c"} <= own_cover) \
+        and len(cnd) == 1 and cnd[0][0] == "c" and cnd[0][2] == L(ccond) and not other
     rep.check(ok_shape, "C02.cellpdf", f"{q}:shape", fn.where(), "shape[d] = len(coords[d]); shape[conditional_on[d]] = len(coords[conditional_on[d]]); other axes 1",
-              f"the broadcast shape must be all ones except entry dist_idx = len(coords[dist_idx]) and, when conditional, entry conditional_on[dist_idx] = len(its grid); found {stores}")
+              f"the broadcast shape must be all ones except entry dist_idx = len(coords[dist_idx]) and, when conditional, entry conditional_on[dist_idx] = len(its grid); found {[(s_[0], show(s_[1])[:40], show(s_[2])[:40]) for s_ in stores]}")
     rep.check(len(alloc) == 1 and len(unc) == 1, "C02.cellpdf", f"{q}:branches", fn.where(), "one unconditional and one conditional source",
               f"expected exactly the unconditional difference and the conditional matrix as sources of the result; found {len(unc)} + {len(alloc)}")
     rep.check(ok_div, "C02.cellpdf", f"{q}:dx", fn.where(), "dx from the own axis", "dx must be the spacing of coords[dist_idx]")
